@@ -219,7 +219,7 @@ def _f(v):
 
 
 def run(scn, want=(), fault=None, script=None, fit_faults=None, probe_limit=True, search_script=None,
-        pre_optimize=None):
+        pre_optimize=None, es_thin=None):
     """Execute the scenario. `want` ⊆ {"filter","poll","gp","acq","es","improve","logger"} selects the
     (costlier) seams. Returns a Trace."""
     import pybads.bads.bads as BB
@@ -312,6 +312,20 @@ def run(scn, want=(), fault=None, script=None, fit_faults=None, probe_limit=True
             return w
         pairs += [(BB, "contraints_check", wrap_filter(BB.contraints_check, "bads")),
                   (ES, "contraints_check", wrap_filter(ES.contraints_check, "es"))]
+
+    # --- scripted thinning of the ES populations: after the real filter, keep only the first k survivors of the
+    # n-th ES filter call (k cycled from `es_thin`; None = keep all). A subset of the survivors is what a stricter
+    # feasible region would leave, so every downstream obligation is unchanged.
+    if es_thin:
+        base = next((new for (m, n, new) in reversed(pairs) if m is ES and n == "contraints_check"), ES.contraints_check)
+        thin_n = {"n": 0}
+
+        def wthin(U, lb, ub, tol_mesh, function_logger, proj=True, non_box_cons=None):
+            out = base(U, lb, ub, tol_mesh, function_logger, proj, non_box_cons)
+            k = es_thin[thin_n["n"] % len(es_thin)]
+            thin_n["n"] += 1
+            return out if k is None else out[: int(k)]
+        pairs.append((ES, "contraints_check", wthin))
 
     # --- poll basis ---
     if "poll" in want:
